@@ -216,14 +216,22 @@ func beatScenario(name string, seed int64) Scenario {
 				w.Finish()
 				return
 			}
-			if proto == 4 && r.Intn(3) == 0 {
+			if r.Intn(3) == 0 {
 				// a conformant upgrade right after opening (before the first ping): the heartbeat must go on on the new transport
-				cand := w.DialWS(s, "", nil, wsPonger(pol))
+				// (revision 3: the switch cancels the pending deadline - upstream design -, the client's next ping arms a new one)
+				var on func(*WSClient, Pkt)
+				if proto == 4 {
+					on = wsPonger(pol)
+				}
+				cand := w.DialWS(s, "", nil, on)
 				synctest.Wait()
 				cand.SendPkt(Pkt{Type: "ping", Data: []byte("probe")})
 				synctest.Wait()
 				cand.SendPkt(Pkt{Type: "upgrade"})
 				synctest.Wait()
+				if proto != 4 {
+					go wsV3Pinger(w, cand, cfg, 1+r.Intn(3), mode)
+				}
 				for el := time.Duration(0); el < horizon; el += cfg.PI / 2 {
 					time.Sleep(cfg.PI / 2)
 					w.Snapshot()
